@@ -239,6 +239,20 @@ fn apply(s: &BoxSource, k: u8) {
   }
 }
 
+/// bytes -> case (fuzz target `pair_c14`)
+pub fn case_from_bytes(data: &[u8]) -> Case {
+  let mut c = crate::from_bytes::Cur::new(data);
+  let edit = if c.u8() % 3 == 0 { None } else { Some(c.u16()) };
+  let nx = c.below(6);
+  let hx = (0..nx).map(|_| c.u8() % OBS.len() as u8).collect();
+  let ny = if c.u8() % 3 == 0 { c.below(5) } else { 0 };
+  let hy = (0..ny).map(|_| c.u8() % OBS.len() as u8).collect();
+  let observed_build = if c.u8() % 4 == 0 { Some(c.u8() % 6) } else { None };
+  let g = cfg();
+  let x = crate::gen::normalize(crate::from_bytes::spec(&mut c, g.depth, g), g);
+  Case { shared_map: None, x, edit, hx, hy, observed_build }
+}
+
 impl Prop for C14 {
   type Case = Case;
   const ID: &'static str = "C14";
@@ -259,6 +273,13 @@ impl Prop for C14 {
         source: Cases::Generated(Box::new(shared_map_strategy), 30_000, 400_000),
       },
     ]
+  }
+  fn stages(&self, ctx: &Ctx) -> Vec<Stage> {
+    if ctx.tier == Tier::Thorough {
+      crate::fuzz::campaigns("C14", &["pair_c14"], ctx)
+    } else {
+      vec![]
+    }
   }
   fn check(&self, case: &Case) -> CheckResult {
     let r = guard(|| -> Result<CaseInfo, String> {
